@@ -157,6 +157,13 @@ def missing_tail(ctx):
     if not ok:
         return
     h = hs[0]
+    # nothing else is guarded by that handler: an access error raised while evaluating the value
+    # (or anything else) must not be mistaken for a missing destination
+    guarded = [n for n in cfg.nodes if n is not fn and n.kind in ('stmt', 'test', 'for') and h in cfg.handlers_reached_from(n)
+               and any(isinstance(c, ast.Call) for c in ast.walk(n.ast))]
+    ctx.ob(not guarded, u, 'the missing-destination handler guards the destination fetch only',
+           '' if not guarded else 'also guarded: %s -- a PathAccessError from there is taken for a missing destination'
+           % [norm(n.ast)[:60] for n in guarded], node=h.ast)
     pae = h.ast.name
     roles = assign_roles(ctx, u)
     valv, opv, argv, pathv = roles.get('val'), roles.get('op'), roles.get('arg'), roles.get('path')
